@@ -65,6 +65,7 @@ type errno =
 | EAGAIN
 | EINTR
 | EBADF
+| EINVAL
 
 type wresp =
 | WFull
@@ -99,10 +100,12 @@ type cresp =
 | COk
 | CFailOpen
 | CFailLock
+| CFailTrunc of errno
 
 type event =
 | EOpen of path * nat option
 | ELock of nat * bool
+| ETrunc of nat * bool
 | EWrite of nat option * nat * nat * nat option
 | EClose of nat option * bool
 | EEnvOpen of nat
